@@ -93,12 +93,13 @@ Definition result_eqb (a b : merge_result) : bool :=
   end.
 
 Definition corrb (c : case) : bool :=
-  let a := c_accept c in let w := c_word c in let t := c_terms c in
+  (* [merge], [merge_hunks] and [try_merge] are the three collectors applied to one stream *)
+  let st := merge_stream M_hist (c_accept c) (c_word c) (c_terms c) in
   negb (c_panicked c)
-  && terms_eqb (merge M_hist a w t) (c_merge c)
-  && result_eqb (merge_hunks M_hist a w t)
+  && terms_eqb (collect_merged st) (c_merge c)
+  && result_eqb (collect_hunks st)
                 (if c_mh_resolved c then Resolved (hd [] (hd [] (c_mh c))) else Conflict (c_mh c))
-  && option_eqb bytes_eqb (try_merge M_hist a w t) (c_try c)
-  && self_identity_okb t.
+  && option_eqb bytes_eqb (collect_resolved st) (c_try c)
+  && self_identity_okb (c_terms c).
 
 Definition check_case (c : case) : N := verdict (corrb c) (okb c) false 1.
